@@ -420,13 +420,15 @@ def canon_observed(config, case, out):
                                              H.fbits(t), H.fbits(dt)))
             if e1 != out['sids'].get(nm):
                 probs.append(('C04:stepper-attributes',
-                              'compiled stepper of %s has sid=%r, the instance '
-                              'given to the integrator has %r'
-                              % (nm, e1, out['sids'].get(nm))))
+                              'the compiled stepper of %s carries the attributes of the '
+                              'instance given to the integrator (sid=%r)'
+                              % (nm, out['sids'].get(nm)),
+                              'it carries sid=%r' % e1))
             if int(idx) >= nreal[nm]:
                 probs.append(('C04:ghost-stepped',
-                              '%s of %s applied to index %d >= %d real particles'
-                              % (mname(c - 100), nm, int(idx), nreal[nm])))
+                              '%s of %s is applied to the %d real particles and to no ghost'
+                              % (mname(c - 100), nm, nreal[nm]),
+                              'applied to index %d' % int(idx)))
         elif 300 <= c < 400:
             nm = names[int(aux)]
             res.append('h:%s:%s:%s:%s' % (nm, mwire(mname(c - 300)),
@@ -446,17 +448,17 @@ def canon_observed(config, case, out):
                 e_idx, a_idx = divmod(int(eid), 16)
                 if e_idx != int(aux) or t2 != t or dt2 != dt:
                     probs.append(('C04:evaluator-arguments',
-                                  'compute_accelerations(%d) at (t,dt)=(%r,%r) ran '
-                                  'equation set %d with (%r,%r)'
-                                  % (int(aux), t, dt, e_idx, t2, dt2)))
+                                  'compute_accelerations(%d) evaluates equation set %d '
+                                  'at (t,dt)=(%r,%r)' % (int(aux), int(aux), t, dt),
+                                  'equation set %d ran with (%r,%r)' % (e_idx, t2, dt2)))
                 seen.setdefault(names[a_idx], []).append((int(di), nn, x2))
                 j += 1
             want = {n: list(range(nreal[n])) for n in names}
             got = {n: [d for d, _, _ in seen.get(n, [])] for n in names}
             if want != got:
                 probs.append(('C04:evaluator-destinations',
-                              'evaluator %d visited %r, real particles are %r'
-                              % (int(aux), got, want)))
+                              'evaluator %d visits the real particles %r' % (int(aux), want),
+                              'visited %r' % (got,)))
             out.setdefault('evals', []).append((i, int(aux), seen))
             i = j
             continue
@@ -464,9 +466,10 @@ def canon_observed(config, case, out):
             res.append('c:%s:%s:%d' % (H.fbits(t), H.fbits(dt), int(aux)))
         elif c == 200:
             probs.append(('C04:evaluator-outside-compute',
-                          'a tracer equation ran outside evaluator.compute'))
+                          'equations run only inside evaluator.compute',
+                          'a tracer equation ran outside'))
         else:
-            probs.append(('C04:log-garbage', 'event code %r' % code))
+            probs.append(('C04:log-garbage', 'known event codes', 'event code %r' % code))
         i += 1
     return res, probs
 
@@ -547,6 +550,172 @@ def literal_events(config, case, cls, n0):
     return ev, refreshed
 
 
+
+# --------------------------------------------------------------------------
+# shipped steppers, numerically: the compiled step vs the literal execution of
+# one_timestep by CPython calling the stepper's own Python methods
+
+ZEQ_SOURCE = '''\
+class ZEq_CID(Equation):
+    def __init__(self, dest, sources, w=1.0):
+        self.w = w
+        Equation.__init__(self, dest, sources)
+    def initialize(self, d_idx, d_zz, t, dt):
+        d_zz[d_idx] += (t + dt)*self.w
+'''
+
+
+def numeric_module_source(config):
+    cid = config_id(config)
+    return ('from pysph.sph.equation import Equation\n' +
+            ZEQ_SOURCE.replace('ZEq_CID', 'ZEq_' + cid) + 'ZEq = ZEq_' + cid + '\n')
+
+
+class LiteralNumeric(object):
+    def __init__(self, stepper, state, nreal, t, dt, nev):
+        self._st = stepper
+        self._state = state
+        self._n = nreal
+        self._t0 = t
+        self._cur = t
+        self._dt = dt
+        self._nev = nev
+        self.cbs = []
+
+    def __getattr__(self, name):
+        if name == 'initialize' or STAGE_RE.match(name):
+            if not hasattr(self._st, name) and not hasattr(self._st, 'py_' + name):
+                raise AttributeError(name)
+            return lambda: self._stage(name)
+        raise AttributeError(name)
+
+    def _stage(self, m):
+        import inspect
+        meth = getattr(self._st, m, None)
+        if meth is None:
+            return
+        args = inspect.getfullargspec(meth).args[1:]
+        for i in range(self._n):
+            kw = {}
+            for a in args:
+                if a == 'd_idx':
+                    kw[a] = i
+                elif a == 't':
+                    kw[a] = self._cur
+                elif a == 'dt':
+                    kw[a] = self._dt
+                else:
+                    kw[a] = self._state[a[2:]]
+            meth(**kw)
+
+    def compute_accelerations(self, index=0, update_nnps=True):
+        if not 0 <= index < self._nev:
+            raise IndexError(index)
+        zz = self._state['zz']
+        for i in range(self._n):
+            zz[i] += (self._cur + self._dt) * float(index + 1)
+
+    def update_domain(self):
+        pass
+
+    def do_post_stage(self, stage_dt, stage):
+        self._cur = self._t0 + stage_dt
+        self.cbs.append((self._cur, self._dt, stage))
+
+
+def run_numeric_case(config, case, mod):
+    import inspect
+    import pysph.sph.equation as _eqmod
+    _eqmod.group_counter = _eqmod._counter()
+    from pysph.base.utils import get_particle_array
+    from pysph.sph.equation import MultiStageEquations
+    from pysph.sph.acceleration_eval import AccelerationEval, make_acceleration_evals
+    from pysph.base.kernels import CubicSpline
+    from pysph.base.nnps import LinkedListNNPS
+    from pysph.sph.sph_compiler import SPHCompiler
+    sm, sc = config['stepper'].rsplit('.', 1)
+    Step = getattr(importlib.import_module(sm), sc)
+    cls = load_integrator_class(config, mod)
+    rng = random.Random(case['seed'])
+    nr, ng = case['n_real'], case['n_ghost']
+    n = nr + ng
+    props = set()
+    stepper = Step()
+    for m in dir(stepper):
+        if m == 'initialize' or STAGE_RE.match(m):
+            for a in inspect.getfullargspec(getattr(stepper, m)).args[1:]:
+                if a.startswith('d_') and a != 'd_idx':
+                    props.add(a[2:])
+                elif a not in ('d_idx', 't', 'dt', 'self'):
+                    return {'skip': 'argument %r of %s.%s' % (a, sc, m)}
+    props.add('zz')
+    init = {}
+    for p in sorted(props):
+        if p == 'h':
+            init[p] = [rng.uniform(0.05, 0.2) for _ in range(n)]
+        elif p in ('rho', 'm', 'rho0', 'V', 'cs'):
+            init[p] = [rng.uniform(0.5, 2.0) for _ in range(n)]
+        else:
+            init[p] = [rng.uniform(-1.0, 1.0) for _ in range(n)]
+    # ---- the literal execution first (it also guards the compiled run
+    # against steppers that index beyond one value per particle)
+    state = {p: np.array(v, dtype=float) for p, v in init.items()}
+    cb_lit = []
+    try:
+        for t, dt in case['steps']:
+            lit = LiteralNumeric(stepper, state, nr, t, dt, config['nev'])
+            cls.one_timestep(lit, t, dt)
+            cb_lit += lit.cbs
+    except Exception as e:     # noqa
+        return {'skip': 'literal execution of %s raises %s: %s'
+                % (sc, type(e).__name__, str(e)[:100])}
+    # ---- the compiled integrator
+    base = dict(name='fluid')
+    for p in ('x', 'h', 'm'):
+        base[p] = np.array(init.get(p, [0.1 * (i + 1) for i in range(n)]), dtype=float)
+    pa = get_particle_array(**base)
+    for p in sorted(props):
+        if p not in pa.properties:
+            pa.add_property(p)
+        pa.get_carray(p).get_npy_array()[:] = init[p]
+    tag = pa.get_carray('tag').get_npy_array()
+    tag[nr:] = 2
+    pa.align_particles()
+    arrays = [pa]
+    kernel = CubicSpline(dim=1)
+    nev = config['nev']
+    groups = [[mod.ZEq(dest='fluid', sources=None, w=float(e + 1))] for e in range(nev)]
+    if nev == 1:
+        a_evals = [AccelerationEval(particle_arrays=arrays, equations=groups[0], kernel=kernel)]
+    else:
+        a_evals = make_acceleration_evals(arrays, MultiStageEquations(groups), kernel)
+    integ = cls(fluid=Step())
+    try:
+        comp = SPHCompiler(a_evals if nev > 1 else a_evals[0], integrator=integ)
+        comp.compile()
+    except BaseException as e:       # noqa
+        if isinstance(e, KeyboardInterrupt):
+            raise
+        return {'skip': 'does not compile with generic properties: %s' % str(e)[-120:]}
+    nnps = LinkedListNNPS(dim=1, particles=arrays)
+    for ae in a_evals:
+        ae.set_nnps(nnps)
+    integ.set_nnps(nnps)
+    cb_obs = []
+    integ.set_post_stage_callback(lambda t, dt, k: cb_obs.append((t, dt, k)))
+    for t, dt in case['steps']:
+        integ.step(t, dt)
+    bad = []
+    for p in sorted(props):
+        got = pa.get(p, only_real_particles=False)
+        want = state[p]
+        for i in range(n):
+            g, w = float(got[i]), float(want[i])
+            if g != w and not (g != g and w != w):
+                bad.append((p, i, 'ghost' if i >= nr else 'real', w, g))
+    return {'bad': bad[:6], 'nbad': len(bad), 'cb_ok': cb_lit == cb_obs,
+            'cb': [cb_lit[:3], cb_obs[:3]], 'props': sorted(props)}
+
 # --------------------------------------------------------------------------
 # worker: one compiled module configuration, several cases
 
@@ -558,12 +727,22 @@ def worker(job):
     os.makedirs(d, exist_ok=True)
     modname = 'c04tr_' + cid
     with open(os.path.join(d, modname + '.py'), 'w') as fh:
-        fh.write(module_source(config))
+        fh.write(numeric_module_source(config) if config.get('numeric')
+                 else module_source(config))
     sys.path.insert(0, d)
     results = []
     try:
         mod = importlib.import_module(modname)
         cls = load_integrator_class(config, mod)
+        if config.get('numeric'):
+            for case in cases:
+                r = {'case': case}
+                try:
+                    r['numeric'] = run_numeric_case(config, case, mod)
+                except Exception:      # noqa
+                    r['error'] = traceback.format_exc()[-1500:]
+                results.append(r)
+            return {'config': config, 'results': results, 'secs': time.time() - t0}
         for case in cases:
             r = {'case': case}
             try:
@@ -872,6 +1051,9 @@ def evaluate(jobs_out, tab, R, gen_table):
         if 'fatal' in jo:
             raise SystemExit('worker failed for %s:\n%s' % (
                 json.dumps(config['integrator']), jo['fatal']))
+        if config.get('numeric'):
+            evaluate_numeric(jo, R)
+            continue
         prog = program_of(config, tab)
         ig = config['integrator']
         pw = T2L.wire_program(prog)
@@ -944,8 +1126,8 @@ def evaluate(jobs_out, tab, R, gen_table):
                         'event %d of the literal execution of one_timestep: %s '
                         '(of %d events)' % (d[0], d[1], len(lit)),
                         'event %d observed: %s (of %d events)' % (d[0], d[2], len(obs)))
-        for key, text in r['problems'][:3]:
-            R.prop_fail(key, full, 'see text', text)
+        for key, demand, observed in r['problems'][:3]:
+            R.prop_fail(key, full, demand, observed)
         for nb in r['nbr_bad'][:1]:
             R.prop_fail('C04:%s:stale-neighbours' % who, full,
                         'evaluator %d (call #%d, update_nnps=True) sees the %d '
@@ -969,6 +1151,53 @@ def evaluate(jobs_out, tab, R, gen_table):
                {'integrator': ig, 'steps': case['steps'], 'observed': obs[:12],
                 'model': mi[:12], 'n_events': len(obs)} if k < 2 else None)
         R.d['traces_validated_against_impl'] += 1
+
+
+def evaluate_numeric(jo, R):
+    config = jo['config']
+    who = config['integrator']['cls'].rsplit('.', 1)[-1]
+    st = config['stepper'].rsplit('.', 1)[-1]
+    for r in jo['results']:
+        full = {'config': config, 'case': r['case']}
+        if 'error' in r:
+            raise SystemExit('numeric case failed to run: %s\n%s' % (json.dumps(full), r['error']))
+        nu = r['numeric']
+        if 'skip' in nu:
+            R.count('numeric-skipped')
+            R.note('numeric %s x %s skipped: %s' % (who, st, nu['skip']))
+            break
+        R.count('numeric:%s x %s' % (who, st))
+        if nu['nbad']:
+            b = nu['bad'][0]
+            R.prop_fail('C04:numeric:%s:%s:%s' % (who, st, b[2]), full,
+                        'after the steps %s[%d] (%s particle) = %r, the value obtained by '
+                        'executing one_timestep literally with the stepper\'s Python methods'
+                        % (b[0], b[1], b[2], b[3]),
+                        '%r (%d values differ)' % (b[4], nu['nbad']))
+        if not nu['cb_ok']:
+            R.prop_fail('C04:numeric:%s:%s:callback' % (who, st), full,
+                        'callbacks %r' % (nu['cb'][0],), 'observed %r' % (nu['cb'][1],))
+        R.case(json.dumps(full, sort_keys=True), True, None)
+        R.d['traces_validated_against_impl'] += 1
+
+
+def numeric_jobs(pairs, rng, ncases, work):
+    jobs = []
+    for q, sq, nev in pairs:
+        cfg = {'numeric': True, 'integrator': {'kind': 'shipped', 'cls': q},
+               'stepper': sq, 'nev': nev}
+        cases = []
+        for k in range(ncases):
+            steps = []
+            t = rng.choice([0.0, rng.uniform(0, 5)])
+            for _ in range(rng.choice([1, 2, 3])):
+                dt = rng.choice([0.125, rng.uniform(1e-4, 0.3)])
+                steps.append([t, dt])
+                t = t + dt
+            cases.append({'n_real': rng.choice([1, 2, 4, 5]), 'n_ghost': rng.choice([1, 2, 3]),
+                          'seed': rng.randrange(10 ** 9), 'steps': steps})
+        jobs.append((cfg, cases, work))
+    return jobs
 
 
 def run_jobs(jobs, nproc):
@@ -1134,6 +1363,22 @@ def main():
         prog = program_of(cfg, tab)
         n = 1 if (not quick and g % 9 == 8) else ncases
         jobs.append((cfg, [gen_case(rng, cfg, prog, k) for k in range(n)], a.work))
+    allpairs = []
+    for q in sorted(PAIRING):
+        if q not in tab['integrators']:
+            continue
+        prog = tab['programs'][tab['integrators'][q]][0]
+        nev = 1 + max([c[1] for c in prog if c[0] == 'A'] + [0])
+        for sq in PAIRING[q]:
+            if sq in tab['steppers'] and not tab['steppers'][sq][1]:
+                allpairs.append((q, sq, nev))
+    if quick:
+        npairs = [p for p in allpairs if p[:2] == (
+            'pysph.sph.integrator.PECIntegrator', 'pysph.sph.integrator_step.WCSPHStep')]
+        npairs += rng.sample([p for p in allpairs if p not in npairs], 2)
+    else:
+        npairs = allpairs
+    jobs += numeric_jobs(npairs, rng, 6 if quick else 12, a.work)
     R.count('compiled-configurations', len(jobs))
     nproc = min(len(jobs), max(2, min(12, (os.cpu_count() or 4) - 2)))
     t0 = time.time()
@@ -1141,7 +1386,10 @@ def main():
     R.note('%d configurations compiled and run in %d processes, %.0f s'
            % (len(jobs), nproc, time.time() - t0))
     evaluate(outs, tab, R, gen_table)
-    if a.broken or R.d['disagreements']:
+    if (a.broken or R.d['disagreements']) and R.d['property_failures']:
+        R.d['search'] = {'skipped': 'failing inputs already found by the regular run',
+                         'found': len(R.d['property_failures'])}
+    elif a.broken or R.d['disagreements']:
         # failing-input search on the real code: every shipped integrator,
         # more cases (the literal-execution oracle runs on each)
         rng2 = random.Random(a.seed + 777)
